@@ -70,6 +70,17 @@ def gen_cases(rng, tier, scale):
         grp = f'ws{k}'
         for name, tpl in (('AB', A + '|' + B), ('A', A + '|'), ('B', '|' + B), ('S', '|' + A + '|'), ('R', '|' + (A + '|') * rep)):
             cases.append(rcase(f'{grp}{name}', tpl, data, partials={'leaf': 'L'}, entry=0, kind=name, grp=grp, rep=rep, tags=['whitespace-flags']))
+    # ... fixed shapes (whatever the seed): a standalone-position tag ending in `~}}` followed by an unescaped expression and a
+    # line break — the standalone marker the tag set must not survive the expression and eat the text after it
+    WSF = ['{{#if yes~}}\n{{{v}}}\n y{{/if}}', '{{#if yes~}}\n{{&v}}  \n y{{/if}}', '{{#if yes}}a{{/if~}}\n{{{v}}}\n b', '{{> leaf~}}\n {{{v}}}\n c',
+           '{{#if no}}n{{else~}}\n{{{v}}}\n\n d{{/if}}', '{{#if yes~}}\n{{v}}\n y{{/if}}', '{{#each two~}}\n{{{this}}}\n e{{/each}}', '{{! c ~}}\n{{{v}}}\n f']
+    for k, A in enumerate(WSF):
+        data = {'v': 'V', 'yes': True, 'no': False, 'two': [1, 2]}
+        B = '{{v}} z'
+        rep = 3
+        grp = f'wsf{k}'
+        for name, tpl in (('AB', A + '|' + B), ('A', A + '|'), ('B', '|' + B), ('S', '|' + A + '|'), ('R', '|' + (A + '|') * rep)):
+            cases.append(rcase(f'{grp}{name}', tpl, data, partials={'leaf': 'L'}, entry=0, kind=name, grp=grp, rep=rep, tags=['whitespace-flags-fixed']))
     # a construct that writes nothing leaves no trace: T' = T with an empty construct inserted directly in front of a
     # non-blank text character (so it is never alone on its line) renders like T — inside indented partials, partials
     # entered in the middle of a line, after `~` tags, inside blocks
